@@ -80,12 +80,20 @@ func RunPipeline(seed int64, tier, driver, outDir string, search bool) *core.Res
 	sw, stats := sweepInChildren(seed, samples)
 	res.Extra = map[string]any{"sweep": stats, "registry_functions": len(Registry)}
 	var skipped []string
+	nilWaits := map[string]int{}
 	for _, s := range sw {
 		if s.Kind == "skipped" {
 			skipped = append(skipped, s.Target+" ("+s.Msg+")")
 			continue
 		}
 		res.Evaluations++
+		if s.NilCtx && s.Kind == "hang" {
+			// a nil context is a context that never ends: a wait helper given one waits for as long
+			// as its condition is not met - the same call is made with live contexts too, where a
+			// wait that outlasts the context is reported
+			nilWaits[s.Target]++
+			continue
+		}
 		finding := "C20-" + s.Kind + ":" + s.Target
 		if s.NilCtx && s.Kind != "ok" {
 			finding = "C20-nilctx-" + s.Kind + ":" + s.Target
@@ -145,8 +153,49 @@ func RunPipeline(seed int64, tier, driver, outDir string, search bool) *core.Res
 		}
 	}
 	res.Extra["copy_scenarios"] = nc
+	// (e) what the wait helpers report
+	nsem := 60
+	if tier == "thorough" {
+		nsem = 600
+	}
+	type semOut struct {
+		fs   []string
+		line string
+	}
+	semCh := make(chan semOut, nsem)
+	semSem := make(chan struct{}, 16)
+	for i := 0; i < nsem; i++ {
+		semSem <- struct{}{}
+		go func(i int) {
+			defer func() { <-semSem }()
+			fs, line := WaitSemScenario(seed*100043 + int64(i))
+			semCh <- semOut{fs, line}
+		}(i)
+	}
+	for i := 0; i < nsem; i++ {
+		o := <-semCh
+		res.Evaluations++
+		for _, f := range o.fs {
+			finding := ""
+			fnName := strings.Fields(f)[0]
+			if strings.HasPrefix(f, "nilctx-panic ") {
+				fnName = strings.Fields(f)[1]
+				finding = "C20-nilctx-panic:amhelp." + fnName
+			}
+			key := "waitsem|" + fnName + "|" + finding
+			if failSeen[key] {
+				continue
+			}
+			failSeen[key] = true
+			file := filepath.Join(outDir, fmt.Sprintf("C20-seed%d-waitsem%d.scase", seed, len(res.Failures)))
+			os.WriteFile(file, []byte(fmt.Sprintf("# wait helpers: %s\n%s\n", f, o.line)), 0o644)
+			res.Failures = append(res.Failures, core.FailRec{Prop: "C20", Finding: finding, Msg: f + " [" + o.line + "]", File: file})
+		}
+	}
+	res.Extra["wait_semantics_scenarios"] = nsem
 	sort.Strings(skipped)
 	res.Extra["skipped_targets"] = uniqStrings(skipped)
+	res.Extra["waits_on_a_nil_context"] = nilWaits
 	res.Evaluations += stats["ok"]
 	res.WallS = time.Since(t0).Seconds()
 	return res
